@@ -18,7 +18,7 @@ RULE = (
 )
 REQUIRED = ["get_rc_checked", "idempotence_checked", "extract_k_checked", "chain_checked", "core_flag_checked",
             "renumbering_relation_checked", "hh_bond_cases", "half_order_changes", "product_only_bonds",
-            "contexts_strictly_growing", "disconnected_centres"]
+            "contexts_strictly_growing", "disconnected_centres", "derived_graph_contexts_checked", "hh_bond_with_both_ends_in_other_centre_bonds"]
 ASSUMPTIONS = [
     "ITS graphs built with default flags (ignore_aromaticity=False): standard_order is the plain difference",
     "centre node attributes compared: element, charge, typesGH, atom_map (the documented selection)",
@@ -125,6 +125,30 @@ def check_contexts(ctx, its, rc, wit):
         prev = ctxg
     if len(set(sizes)) >= 3:
         ctx.count("contexts_strictly_growing")
+    # history: a graph *derived* from an ITS that has already been queried (relabelled copy, then an edited copy)
+    # must be analysed on its own terms
+    shift = {n: n + 1000 for n in its.nodes} if all(isinstance(n, int) for n in its.nodes) else None
+    if shift:
+        its2 = nx.relabel_nodes(its, shift)
+        e = next(((u, v) for u, v, d in its2.edges(data=True) if d["order"][0] == d["order"][1] and d["order"][0]), None)
+        if e is not None:
+            o = its2.edges[e]["order"][0]
+            its2.edges[e]["order"] = (o, 0.0)          # this bond now breaks: the centre of the copy grows
+            its2.edges[e]["standard_order"] = o
+        from synkit.Graph.ITS.its_decompose import get_rc
+        c2 = set(expected_rc(its2)[0])
+        for k in (1, 2):
+            try:
+                got = set(RadiusExpand.extract_k(its2, k).nodes)
+            except Exception as ex:
+                ctx.violation("context-exception", {**wit, "k": k, "derived": True},
+                              f"extract_k raises {type(ex).__name__}: {ex} on a relabelled/edited copy of an already queried ITS")
+                break
+            ctx.count("derived_graph_contexts_checked")
+            if got != ball(its2, c2, k):
+                ctx.violation("context-atoms", {**wit, "k": k, "derived": True},
+                              f"context({k}) of a relabelled/edited copy of an already queried ITS is not the {k}-ball around the copy's own centre")
+                break
 
 
 def rc_iso(a, b):
@@ -143,6 +167,8 @@ def check_its(ctx, its, tag, key, wit):
         o = d["order"]
         if o[0] == o[1]:
             ctx.count("hh_bond_cases")
+            if rc.degree(u) > 1 and rc.degree(v) > 1:
+                ctx.count("hh_bond_with_both_ends_in_other_centre_bonds")
         if abs(o[0] - o[1]) == 0.5:
             ctx.count("half_order_changes")
         if o[0] == 0:
@@ -167,10 +193,16 @@ def synthetic_its(rng):
             for x in (base, base + 1):
                 g.add_node(x, element="H", hcount=0, charge=0, aromatic=False, atom_map=x, neighbors=["H"])
             g.add_edge(base, base + 1, order=1.0)
-        if rng.random() < 0.5:
+        k = rng.random()
+        if k < 0.4:
             H.remove_edge(base, base + 1)
             tgt = rng.choice([v for v in H.nodes if v < base])
             H.add_edge(base, tgt, order=1.0)
+        elif k < 0.75:
+            # the H-H bond persists while both hydrogens also gain bonds to heavy atoms (bridging X-H...H-Y)
+            heavy = [v for v in H.nodes if v < base]
+            H.add_edge(base, rng.choice(heavy), order=1.0)
+            H.add_edge(base + 1, rng.choice(heavy), order=1.0)
     return ITSConstruction().ITSGraph(G, H)
 
 
